@@ -399,6 +399,15 @@ class HtmlToAst(HTMLParser):
         super().feed(source)
         return self.struct.outmost
 
+    def parse_marked_section(self, i: int, report: int = 1) -> int:
+        """Treat a marked section with an unknown keyword (e.g. ``<![foo[``)
+        as a bogus comment, rather than raising an ``AssertionError``.
+        """
+        try:
+            return super().parse_marked_section(i, report)
+        except AssertionError:
+            return self.parse_bogus_comment(i, report)
+
     def handle_starttag(self, name: str, attr):
         """When found an opening tag then nest it onto the tree."""
         if name in self.void_elements:
